@@ -307,7 +307,35 @@ pub fn run(ctx: &Ctx) -> Rep {
     // ---- six / seven cards: class of the best hand -----------------------------
     let rate6 = ctx.pick(1, 4, 1);
     let rate7 = ctx.pick(1, 32, 4);
+    let perms6: Vec<[u8; 8]> = (0..drive::factorial(6)).map(|k| drive::nth_permutation(6, k)).collect();
     let s6 = par_subsets::<6, X, _, _>(ctx, us, mk, |st, c, _| {
+        // directed family (round 13): hands that can hold a straight flush. Single-suit hands go through
+        // hand_rank() in all 720 slot orders; other hands with five or more of a suit whose best hand is a
+        // straight flush or quads-or-better get every card moved to the last slot plus 32 seeded orders.
+        // A rank computed from a leading five that "cannot be beaten" is caught here whatever the seed.
+        if !ctx.smoke() && drive::max_suit_count(c) >= 5 {
+            let key = model::key_best(model::suit_masks(c));
+            let o = m.ord_of_key(key);
+            if drive::max_suit_count(c) == 6 {
+                for q in &perms6 {
+                    let a = [c[q[0] as usize], c[q[1] as usize], c[q[2] as usize], c[q[3] as usize], c[q[4] as usize], c[q[5] as usize]];
+                    check_rank_of_cards(st, "Six::hand_rank", &a, Six::from(words_of(&a)).hand_rank(), key, o);
+                }
+                st.rep.add("single_suit_six_card_hands_in_every_slot_order", 1);
+            } else if o <= 10 {
+                let mut rng = Rng::new(seed, drive::hand_code(c) ^ 0x0617);
+                for k in 0..38 {
+                    let mut a = *c;
+                    if k < 6 {
+                        a.swap(k, 5);
+                    } else {
+                        a = permuted(c, &mut rng);
+                    }
+                    check_rank_of_cards(st, "Six::hand_rank", &a, Six::from(words_of(&a)).hand_rank(), key, o);
+                }
+                st.rep.add("straight_flush_six_card_hands_in_directed_orders", 1);
+            }
+        }
         if !selected(c, seed, 0x6b, rate6) {
             return;
         }
@@ -327,6 +355,39 @@ pub fn run(ctx: &Ctx) -> Rep {
     let n6 = r6.distinct;
     rep.merge(r6);
     let s7 = par_subsets::<7, X, _, _>(ctx, us, mk, |st, c, _| {
+        // directed family (round 13), seven cards: every hand whose best hand is a straight flush, and every
+        // single-suit hand, with each ordered pair of its cards placed in the last two slots (42 orders) plus
+        // 22 seeded orders.
+        if !ctx.smoke() && drive::max_suit_count(c) >= 5 {
+            let key = model::key_best(model::suit_masks(c));
+            let o = m.ord_of_key(key);
+            if o <= 10 || drive::max_suit_count(c) == 7 {
+                let mut rng = Rng::new(seed, drive::hand_code(c) ^ 0x0618);
+                for i in 0..7 {
+                    for j in 0..7 {
+                        if i == j {
+                            continue;
+                        }
+                        let mut a = [0u8; 7];
+                        let mut n = 0;
+                        for k in 0..7 {
+                            if k != i && k != j {
+                                a[n] = c[k];
+                                n += 1;
+                            }
+                        }
+                        a[5] = c[i];
+                        a[6] = c[j];
+                        check_rank_of_cards(st, "Seven::hand_rank", &a, Seven::from(words_of(&a)).hand_rank(), key, o);
+                    }
+                }
+                for _ in 0..22 {
+                    let a = permuted(c, &mut rng);
+                    check_rank_of_cards(st, "Seven::hand_rank", &a, Seven::from(words_of(&a)).hand_rank(), key, o);
+                }
+                st.rep.add("straight_flush_or_single_suit_seven_card_hands_in_directed_orders", 1);
+            }
+        }
         if !selected(c, seed, 0x6c, rate7) {
             return;
         }
@@ -366,7 +427,8 @@ pub fn run(ctx: &Ctx) -> Rep {
     rep.rule = format!(
         "all 65,536 values through HandRank::from and its helpers (distinct = values), each also converted right after 83 related predecessors (thorough: after every value); all 2,598,960 five-card hands in a seeded slot order (and in all 120 slot orders in the fast leg / thorough), \
          a seeded 1-in-{} of the six-card and 1-in-{} of the seven-card hands through hand_rank()/hand_rank_validated(), names compared with the \
-         rules-derived category/class of the cards",
+         rules-derived category/class of the cards; plus (not smoke) every single-suit six-card hand in all 720 slot orders, every other straight-flush six-card hand with each card \
+         moved to the last slot and 32 seeded orders, and every straight-flush or single-suit seven-card hand with each ordered pair of cards in the last two slots and 22 seeded orders",
         rate6, rate7
     );
     rep
